@@ -39,6 +39,7 @@ EXPLANATION = (
     "failure of red actions, whether emitted action names are in the configured action map, validity of the "
     "credentials/knowledge TAP003 reads from its options."
 )
+TECHNIQUE = "static: finite order-domain evaluation of schedule gates, randint-bounds def-use, enum-family typestate of kill-chain stores, probability-vector construction analysis"
 ASSUMPTIONS = [
     "numpy Generator.choice(n, p=vector) never returns an index whose p entry is 0",
     "random.seed / numpy.random.seed make later draws from the global sources reproducible",
